@@ -70,7 +70,9 @@ def gen_chain(rng):
 
 
 def gen_refs(rng):
-    files = [gen.gen_rows(rng, min_rec=2, max_rec=7, ncol=3, blank_p=0.1, ragged_p=0.25) for _ in range(rng.randint(1, 3))]
+    # (sometimes the referenced column's NAME is all digits - a year, a rank - and is not its position)
+    names = rng.choice([["h1", "h2"], ["h1", "h2"], ["2019", "2020"], ["2", "1"], ["h1", "1"]])
+    files = [gen.gen_rows(rng, min_rec=2, max_rec=7, blank_p=0.1, ragged_p=0.25, hdr=["id"] + names) for _ in range(rng.randint(1, 3))]
     nruns = rng.randint(1, 3)
     runs = [{"file": rng.randrange(len(files)), "method": rng.choice(["collect_paths", "next_paths_collect", "collect_by_line"] * 2 + ops.METHODS), "tick_s": rng.choice([1, 2, 61, 3600])} for _ in range(nruns)]
     return {
@@ -83,6 +85,7 @@ def gen_refs(rng):
         "by_id": rng.random() < 0.5,
         "col": rng.choice([1, 2]),
         "two_members": rng.random() < 0.5,
+        "names": names,
         # the file the READER scans may have its columns in another order: a reference names a column of G's data, not of the reader's
         "reader_layout": rng.choice(["same", "same", "permuted"]),
     }
@@ -343,7 +346,8 @@ def _refs(sc, out, w):
     col = sc.get("col", 1)
     # with two members a header reference must name the member (the library documents references as single-path)
     by_id = sc["by_id"] or two
-    ref_h = f"$G.headers.h{col}.g0" if by_id else f"$G.headers.h{col}"
+    hname = (sc.get("names") or ["h1", "h2"])[col - 1]
+    ref_h = f"$G.headers.{hname}.g0" if by_id else f"$G.headers.{hname}"
     cs = ops.new_csvpaths()
     with ops.quiet():
         for fi in range(len(sc["files"])):
@@ -393,12 +397,13 @@ def _refs(sc, out, w):
         out.v("variable_reference", f"{where}: $G.variables.t.k evaluated to {rv.get('b')!r}, the most recent run of G left {want_b!r} (errors {errs})", form="tracking")
     if lines and last["method"] in ops.COLLECTING:
         if rv.get("h") != want_col:
-            out.v("header_reference", f"{where}: {ref_h} evaluated to {rv.get('h')!r}, the values collected under h{col} are {want_col!r} (errors {errs})", by_id=by_id)
+            out.v("header_reference", f"{where}: {ref_h} evaluated to {rv.get('h')!r}, the values collected under column {col} ({hname!r}) are {want_col!r} (errors {errs})", by_id=by_id)
     out.fault("reference_resolved", 4 + (2 if two else 0))
     out.sig = ["refs", len(sc["runs"]), [r["method"] for r in sc["runs"]], sc["reader_method"], by_id, len({r["file"] for r in sc["runs"]}), two]
     out.nontrivial = True
     out.probe("reference after the group ran more than once", len(sc["runs"]) > 1)
     out.probe("reference into a group of two members", two)
+    out.probe("header reference to a digit-only header name", hname.isdigit())
     out.probe("reader scans a file whose columns are in another order", False)
     out.log(rv, want_vars, want_col, len(out.violations))
 
